@@ -96,6 +96,9 @@ func (s *rrSegFetcher) doCheck() {
 		if state.complete {
 			// lazy remove completed streams
 			s.remove(state)
+			if first == state {
+				first = nil // the full-circle marker must be a stream that is still there
+			}
 			continue
 		}
 
